@@ -147,7 +147,7 @@ def run_thorough(prop, module, ctx, repo):
                 limits = json.load(open(os.path.join(VERIF, "refactors", "known_limits.json")))
             except Exception:
                 limits = {}
-            for sub in (prop, prop + "-r2"):
+            for sub in (prop, prop + "-r2", prop + "-r3"):
                 rd = os.path.join(VERIF, "refactors", sub)
                 for f in sorted(os.listdir(rd)) if os.path.isdir(rd) else []:
                     if f.endswith(".diff"):
